@@ -13,7 +13,7 @@
    trips and parse-then-print-then-parse stability. *)
 From Coq Require Import String Ascii.
 From Coq Require Import NArith ZArith List Bool.
-From HV Require Import Base.BSet Base.Bytes Base.Strto Base.Snprintf Bitmap.BitmapText Bitmap.BitmapTextProofs Bitmap.BitmapTextProofsList.
+From HV Require Import Base.BSet Base.Bytes Base.Strto Base.Snprintf Bitmap.BitmapText Bitmap.BitmapTextProofs Bitmap.BitmapTextProofsList Bitmap.BitmapTextProofsTaskset.
 Import ListNotations.
 Local Open Scope N_scope.
 
@@ -97,6 +97,25 @@ Example roundtrip_list_non_vacuous :
   let s := abs (BM [5; 18446744004990074883] true) in
   N.size (fin s) < 2147483648 /\ option_map (@length N) (text_list s) = Some 14%nat.
 Proof. split; vm_compute; reflexivity. Qed.
+
+(* ================= round trip, taskset format: every well-formed bitmap =================
+   (any number of words, finite or infinite, redundant top words included; bm_wf = words < 2^64) *)
+Theorem roundtrip_taskset : forall dirty b, bm_wf b ->
+  exists b', parse_taskset dirty (text_taskset b ++ [0]) = Ok (PSet b') /\ abs b' = abs b /\ bm_wf b'.
+Proof. exact roundtrip_taskset_gen. Qed.
+Print Assumptions roundtrip_taskset.
+
+(* stability of what the parser accepts, given that the accepted words are < 2^64
+   (they are strtoul values; that fact itself is not proved here, hence the hypothesis) *)
+Theorem parse_stable_taskset : forall dirty str b, parse_taskset dirty str = Ok (PSet b) -> bm_wf b ->
+  exists b', parse_taskset dirty (text_taskset b ++ [0]) = Ok (PSet b') /\ abs b' = abs b.
+Proof.
+  intros dirty str b _ Hwf. destruct (roundtrip_taskset_gen dirty b Hwf) as [b' [H1 [H2 _]]]. eauto.
+Qed.
+Print Assumptions parse_stable_taskset.
+
+Example roundtrip_taskset_non_vacuous : bm_wf (BM [18446744069414584321; FULL; 1] true).
+Proof. repeat constructor. Qed.
 
 (* ================= round trip and stability: bounded domain only =================
    MISSING for the full statements: the induction over the printed groups /
